@@ -66,6 +66,7 @@ def memo_ok(ce, attr, W):
 
 
 def run(ctx):
+    integrity(ctx, ['crysp/aes.py', 'crysp/blake.py', 'crysp/hmac.py', 'crysp/keccak.py', 'crysp/md.py', 'crysp/mode.py', 'crysp/nilsimsa.py', 'crysp/padding.py', 'crysp/salsa20.py', 'crysp/sha.py', 'crysp/skein.py', 'crysp/tlsh.py', 'crysp/utils/knapsack.py'])
     repo = ctx.repo
     ctx.rule('C10-R1 S-oneshot')
     nclasses = 0
